@@ -8,7 +8,9 @@ from concurrent.futures import ThreadPoolExecutor
 
 VERIF = os.path.dirname(os.path.dirname(os.path.abspath(__file__)))
 SPEC = os.path.join(VERIF, "spec")
-HARNESS = os.path.join(VERIF, "harness")
+# (VERIF_HARNESS / VERIF_EVIDENCE: a scratch copy of the harness built against a scratch copy of the repository, used only to
+# evaluate seeded changes without touching /repo or the committed evidence; see driver/seed_eval.sh)
+HARNESS = os.environ.get("VERIF_HARNESS") or os.path.join(VERIF, "harness")
 TRACER = os.path.join(HARNESS, "target", "release", "kv-tracer")
 ACTOR = os.path.join(HARNESS, "target", "release", "kv-actor")
 NCPU = os.cpu_count() or 8
@@ -250,7 +252,7 @@ def load_findings():
 
 
 def write_replay(prop, payload):
-    d = os.path.join(VERIF, "replays")
+    d = os.environ.get("VERIF_REPLAYS") or os.path.join(VERIF, "replays")
     os.makedirs(d, exist_ok=True)
     text = json.dumps(payload, sort_keys=True)
     h = hashlib.sha1(text.encode()).hexdigest()[:12]
@@ -261,7 +263,7 @@ def write_replay(prop, payload):
 
 
 def write_evidence(prop, tier, level, coverage, wall, violations, assumptions):
-    d = os.path.join(VERIF, "evidence")
+    d = os.environ.get("VERIF_EVIDENCE") or os.path.join(VERIF, "evidence")
     os.makedirs(d, exist_ok=True)
     ev = dict(property_id=prop, tier=tier, seed=seed(), level=level, coverage=coverage, wall_s=round(wall, 2),
               violations=violations, assumptions=assumptions)
